@@ -52,7 +52,7 @@ def rule_nextchar(chk, prog, tier):
     depth = 5 if tier == 'thorough' else 4
     def runner(it):
         s = Obj('scanner', 'heap')
-        s.f[('chr',)] = ord('a'); s.f[('usebuf',)] = 0
+        s.f[('chr',)] = ord('a'); s.f[('usebuf',)] = 0; s.f[('haspeek',)] = 0
         s.f[('file',)] = Ptr(Obj('FILE', 'heap'), ())
         s.f[('loc', 'file')] = None; s.f[('loc', 'line')] = 10; s.f[('loc', 'col')] = 5
         got = []
@@ -105,7 +105,7 @@ def scan_concrete(prog, text_, ntok=1):
     """run scankind on concrete input with the REAL nextchar (getc scripted); returns [(kind, line, col)]"""
     sk = prog.require_func('scankind', 'scan.c')
     nc = prog.require_func('nextchar', 'scan.c')
-    data = list(text_.encode()) + [-1]
+    data = list(text_.encode('utf-8', 'surrogateescape')) + [-1]           # '\udcXX' in the text stands for the raw byte XX
     def runner(it):
         pos = {'i': 0}
         def getc(it2, a, e):
@@ -125,7 +125,7 @@ def scan_concrete(prog, text_, ntok=1):
                           'error': lambda i2, a, e: (_ for _ in ()).throw(Terminal('error', a)),
                           'bufadd': bufadd})
         s = Obj('scanner', 'heap')
-        s.f[('chr',)] = 0; s.f[('usebuf',)] = 0; s.f[('sawspace',)] = 0
+        s.f[('chr',)] = 0; s.f[('usebuf',)] = 0; s.f[('sawspace',)] = 0; s.f[('haspeek',)] = 0
         s.f[('file',)] = Ptr(Obj('FILE', 'heap'), ())
         s.f[('loc', 'file')] = None; s.f[('loc', 'line')] = 1; s.f[('loc', 'col')] = 0
         buf = Obj('buf', 'heap'); s.f[('buf', 'str')] = Ptr(buf, (0,)); s.f[('buf', 'len')] = 0; s.f[('buf', 'cap')] = 1 << 20
@@ -301,7 +301,9 @@ def rule_line_positions(chk, prog, tier):
     heads = [('#line 10\n', 10, None), ('# 20 "foo.c"\n', 20, 'foo.c'), ('#line 7 "g.c"\n', 7, 'g.c'), ('# 5 "h.h" 1 3\n', 5, 'h.h'),
              ('#line 30 \\\n  "s.c"\n', 30, 's.c'), ('# 40 "c.h" /* a\n b */ 1\n', 40, 'c.h'), ('#line /* x\n\n */ 50\n', 50, None)]
     tails = [('x;', [('x', 0, 1)]), ('\nx;', [('x', 1, 1)]), ('\n\n  x;', [('x', 2, 3)]), ('\\\nx;', [('x', 1, 1)]), ('/* c */ x;', [('x', 0, 9)]), ('/* a\nb */ x;', [('x', 1, 6)]),
-             ('// c\nx;', [('x', 1, 1)]), ('#pragma p\nx;', [('x', 1, 1)]), ('  \nx y\nz', [('x', 1, 1), ('y', 1, 3), ('z', 2, 1)]), ('a\\\nb\nx', [('ab', 0, 1), ('x', 2, 1)])]
+             ('// c\nx;', [('x', 1, 1)]), ('#pragma p\nx;', [('x', 1, 1)]), ('  \nx y\nz', [('x', 1, 1), ('y', 1, 3), ('z', 2, 1)]), ('a\\\nb\nx', [('ab', 0, 1), ('x', 2, 1)]),
+             # the scanner looks two characters ahead after `..`: what it pushes back (a newline, a spliced newline) must not stay counted
+             ('a ..\nx', [('a', 0, 1), ('x', 1, 1)]), ('..\n\nx y', [('x', 2, 1), ('y', 2, 3)]), ('..\\\n.\nx', [('x', 2, 1)]), ('..\\\nx', [('x', 1, 1)])]
     for pre in ('', 'int q;\n\n'):
         for head, line, file in heads:
             for tail, wants in tails:
@@ -333,15 +335,18 @@ def rule_line_positions(chk, prog, tier):
         bad = ['%s at %s, written at %s' % (n, got.get(n), w_) for n, w_ in wants.items() if got.get(n) != w_]
         r.instance(not bad, key, 'pp.c:ctxnext / expandfunc', '; '.join(bad))
     # a string literal made by # is a token of the invocation: it carries a location inside it (a diagnostic about it must not read `(null):0:0`)
-    for src, line in (('#define S(x) #x\n\n  S(hello);\n', 3), ('#define S(x) #x\nint a;\nS(a  b)\n', 3), ('#define S(x) #x\n#define T(y) S(y)\n\n\n T(1 + 2);\n', 5), ('#define V(...) #__VA_ARGS__\n\nV(1, 2) V()\n', 3)):
+    for src, line in (('#define S(x) #x\n\n  S(hello);\n', 3), ('#define S(x) #x\nint a;\nS(a  b)\n', 3), ('#define S(x) #x\n#define T(y) S(y)\n\n\n T(1 + 2);\n', 5), ('#define V(...) #__VA_ARGS__\n\nV(1, 2) V()\n', 3),
+                      # each stringized parameter is located at ITS argument, not at the first one of the invocation
+                      ('#define P(a, b) a #b\n\nP(x,\n  y);\n', 4), ('#define Q(a, b, c) #c #b\nQ(1,\n 2,\n\n 3)\n', (5, 3)), ('#define W(a, ...) a #__VA_ARGS__\n\nW(k,\n\n m, n)\n', 5)):
         run = pp_concrete(prog, src)
         key = 'stringized-location:%r' % src
         if run.outcome == 'unsupported': raise AnalysisBroken('%s: %s' % (key, run.detail))
         if run.outcome != 'return':
             r.instance(False, key, 'pp.c:expandfunc', 'valid input rejected: %s %s' % (run.outcome, run.detail)); continue
         strs = [t for t in run.value if t[0] == 'TSTRINGLIT']
-        bad = ['%s at %s:%s:%s' % (t[1], t[2], t[3], t[4]) for t in strs if t[2] != 'in.c' or t[3] != line or not t[4] or t[4] < 1]
-        r.instance(bool(strs) and not bad, key, 'pp.c:expandfunc', 'the stringized token(s) must be located on line %d of in.c; got %s' % (line, bad or strs))
+        lines = list(line) if isinstance(line, tuple) else [line] * len(strs)
+        bad = ['%s at %s:%s:%s' % (t[1], t[2], t[3], t[4]) for t, ln in zip(strs, lines) if t[2] != 'in.c' or t[3] != ln or not t[4] or t[4] < 1]
+        r.instance(bool(strs) and len(strs) == len(lines) and not bad, key, 'pp.c:expandfunc', 'the stringized token(s) must be located on line(s) %s of in.c; got %s' % (line, bad or strs))
     # diagnostics the scanner itself raises
     # `want`: the position of the offending newline; the start of the literal it is found in is accepted too (both are positions inside the construct)
     START = {'int a;\nchar *s = "abc\n";\n': (2, 11), "int c = 'a\n';\n": (1, 9), 'int a;\n\nint *p = L"ab\n': (3, 10)}
